@@ -166,6 +166,21 @@ def histStep (isStatic : Bool) (regs : Array Lut) (tok : String) : Option (Array
       | some l => setReg d (some l)
       | none => some regs)          -- Err: register unchanged
     | none => none
+  | ["conv", d, n2, w] =>
+    -- a dynamic table of n2 variables converted into the register type: `TryFrom<Lut>` for the
+    -- static types (Err leaves the register alone), the identity for `Lut` when the size fits
+    match n2.toNat?, parseWords (w.replace ";" ",") with
+    | some k, some b =>
+      if b.size != tableSize k then none
+      else match Dyn.fromBlocks k b with
+        | none => none
+        | some src =>
+          if isStatic then
+            match Stat.tryFromDyn n src with
+            | some l => setReg d (some l)
+            | none => some regs
+          else if k == n then setReg d (some src) else some regs
+    | _, _ => none
   | ["mov", d, a] => setReg d (reg a)
   | ["not", d, a] => setReg d ((reg a).map Dyn.not)
   | ["and", d, a, b] => setReg d (do Dyn.and (← reg a) (← reg b))
